@@ -160,6 +160,102 @@ func (g *gen) serveTables() {
 		}
 		g.serveConditions(f, consts)
 	}
+	if f := g.parse("internal/stream/reader.go"); f != nil {
+		g.wsCloseFacts(f)
+	}
+}
+
+// wsCloseFacts reads, from reader.Token in internal/stream/reader.go, the branch
+// for elements in the WebSocket framing name space on an established stream:
+// which local names end the input (io.EOF) instead of being an unexpected
+// restart, and whether that is restricted to top-level elements (r.depth == 1
+// after the increment).
+func (g *gen) wsCloseFacts(f *ast.File) {
+	var fd *ast.FuncDecl
+	for _, d := range f.Decls {
+		if x, is := d.(*ast.FuncDecl); is && x.Name.Name == "Token" && x.Recv != nil {
+			fd = x
+		}
+	}
+	var locals []string
+	topOnly, unrec, branches := false, 0, 0
+	mentions := func(n ast.Node, name string) bool {
+		found := false
+		ast.Inspect(n, func(m ast.Node) bool {
+			if id, is := m.(*ast.Ident); is && id.Name == name {
+				found = true
+			}
+			return true
+		})
+		return found
+	}
+	if fd != nil {
+		ast.Inspect(fd, func(n ast.Node) bool {
+			x, is := n.(*ast.IfStmt)
+			if !is || !mentions(x.Cond, "wsNamespace") {
+				return true
+			}
+			branches++
+			for _, st := range x.Body.List {
+				inner, is := st.(*ast.IfStmt)
+				if !is {
+					continue
+				}
+				// the body must return io.EOF
+				if !mentions(inner.Body, "EOF") {
+					unrec++
+					continue
+				}
+				var walk func(e ast.Expr)
+				walk = func(e ast.Expr) {
+					switch b := e.(type) {
+					case *ast.ParenExpr:
+						walk(b.X)
+						return
+					case *ast.BinaryExpr:
+						if b.Op == token.LAND {
+							walk(b.X)
+							walk(b.Y)
+							return
+						}
+						if b.Op == token.EQL {
+							if sel, is := b.X.(*ast.SelectorExpr); is {
+								if lit, is := b.Y.(*ast.BasicLit); is {
+									if sel.Sel.Name == "Local" && lit.Kind == token.STRING {
+										if v, err := strconv.Unquote(lit.Value); err == nil {
+											locals = append(locals, v)
+											return
+										}
+									}
+									if sel.Sel.Name == "depth" && lit.Kind == token.INT && lit.Value == "1" {
+										topOnly = true
+										return
+									}
+								}
+							}
+						}
+					}
+					unrec++
+				}
+				walk(inner.Cond)
+			}
+			return false
+		})
+	}
+	if branches != 1 {
+		g.errs = append(g.errs, "internal/stream/reader.go: expected one branch on wsNamespace in reader.Token")
+	}
+	g.p("(* internal/stream/reader.go reader.Token: framing-namespace elements on an established WebSocket stream *)\n")
+	g.p("Definition sv_ws_eof_locals : list bytes := [")
+	for i, s := range locals {
+		if i > 0 {
+			g.p("; ")
+		}
+		g.p("hex \"%s\"", hexOf([]byte(s)))
+	}
+	g.p("]. (* local names that end the input *)\n")
+	g.p("Definition sv_ws_eof_top_only : bool := %v. (* ... only as top-level elements *)\n", topOnly)
+	g.p("Definition sv_ws_eof_unrecognised : nat := %d.\n", unrec)
 }
 
 // svTypDisjuncts splits a condition into its || operands and classifies each:
